@@ -33,12 +33,25 @@ def run():
         elif status == "sat":
             wit.append((key, w))
     real = ses.replay_match([({"glob": usable[i]["text"]}, w) for (_, i), w in wit])
+    # known-finding attribution by term patch (rooted leading tree wildcard)
+    refs = {}
+
+    def patched_query(key, patched_smt):
+        kind, i = key
+        must, may, _ = ref.reference(usable[i]["ast"], orbits)
+        if kind == "over":
+            return member(inter("WF", diff(patched_smt, may)))
+        return member(inter("WF", diff(must, patched_smt)))
+    explained = ses.patched_unsat([(key, usable[key[1]]["row"]["re"]) for key, _ in wit], patched_query)
     for ((kind, i), w), r in zip(wit, real):
         text = usable[i]["text"]
         if r["m"] != (kind == "over"):
             raise Inconclusive("witness %r (%s) for %r does not reproduce on the real build" % (w, kind, text))
         rs = {"accepts-undocumented" if kind == "over" else "rejects-documented"}
-        rs |= roles.ast_roles(usable[i]["ast"])
+        ar = roles.ast_roles(usable[i]["ast"])
+        if (kind, i) in explained:
+            rs.add("rooted-leading-tree")
+        rs |= ar & {"tree-at-branch-edge", "class-under-case-flag", "lone-rooted-tree"}
         if "\n" in w:
             rs.add("newline-in-path")
         rep.candidate(rs, {"short": {"program": text, "clause": kind, "path": w,
